@@ -453,6 +453,13 @@ func applyEdit(doc *gedcom.Document, o op, pointers *[]string) (desc string) {
 		}
 	case "AddIndividual":
 		p := fmt.Sprintf("N%d", o.A%4)
+		if o.B%3 == 2 {
+			// (a third of the time under the pointer of somebody who is already there: a second record
+			// with the same identifier, which the API allows and a decoder accepts)
+			if i := pickInd(o.B / 3); i != nil {
+				p = i.Pointer()
+			}
+		}
 		remember(p)
 		doc.AddIndividual(p, gedcom.NewNameNode("New /Person/"))
 		return "AddIndividual(" + p + ")"
@@ -507,6 +514,9 @@ func applyEdit(doc *gedcom.Document, o op, pointers *[]string) (desc string) {
 	case "DocDeleteNode":
 		if roots := doc.Nodes(); len(roots) > 0 {
 			r := roots[o.A%len(roots)]
+			if o.B%3 == 1 {
+				r = roots[len(roots)-1] // (a third of the time the record added last: undoing an addition)
+			}
 			doc.DeleteNode(r)
 			return "Document.DeleteNode(" + line(r) + ")"
 		}
@@ -733,9 +743,9 @@ func genOp(t *rapid.T) op {
 
 func TestCheckHistories(t *testing.T) {
 	s := harness.NewSub("random-histories",
-		"operation lists of 1..25 steps (for a quarter of them the views are read after every step by 6 goroutines at the same time, and every reader must see what the fresh decode shows) over a random referentially closed family graph (<= 5 people, <= 3 families, one in 120 with 20..40 people; decoded from text): 21 edit operations (AddNode/DeleteNode/SetNodes on arbitrary nodes, AddIndividual, AddFamily, AddFamilyWithHusbandAndWife, SetHusband/SetWife incl. nil, SetHusbandPointer/SetWifePointer, AddChild, Document.DeleteNode/AddNode, AddName/Add*Date/SetSex), 5 read operations that warm caches, 10 read-only operations (Warnings, String, Compare, SurroundingSimilarity, Similarity, CompareNodes+Sort, DeepCopy and every filter of the library - directly and through FilterFlags - into another document, in-memory publish, queries); a third of the start documents hold somebody with the same NAME twice; during a fifth of the histories another goroutine is in the middle of decoding an unrelated stream; after every edit and read-only step all views (NodesWithTag for every node x 11 tags, Individuals, Families, NodeByPointer for every pointer ever seen, per individual Names/Sex/Births/Baptisms/Deaths/Burials/AllEvents/UniqueIdentifiers/Families/Spouses/Parents/Children/String, per family Husband/Wife/their individuals/Children/the individuals and parents of the children/String) are compared with a fresh decode of Document.String(); read-only steps must leave the text unchanged; non-trivial = an edit that follows a read of the views")
+		"operation lists of 1..25 steps (for a quarter of them the views are read after every step by 6 goroutines at the same time, and every reader must see what the fresh decode shows) over a random referentially closed family graph (<= 5 people, <= 3 families, one in 120 with 30..100 people; decoded from text): 21 edit operations (AddNode/DeleteNode/SetNodes on arbitrary nodes, AddIndividual, AddFamily, AddFamilyWithHusbandAndWife, SetHusband/SetWife incl. nil, SetHusbandPointer/SetWifePointer, AddChild, Document.DeleteNode/AddNode, AddName/Add*Date/SetSex), 5 read operations that warm caches, 10 read-only operations (Warnings, String, Compare, SurroundingSimilarity, Similarity, CompareNodes+Sort, DeepCopy and every filter of the library - directly and through FilterFlags - into another document, in-memory publish, queries); a third of the start documents hold somebody with the same NAME twice; a sixth of the histories add an individual under a pointer that is already in use and later delete the record added last; during a fifth of the histories another goroutine is in the middle of decoding an unrelated stream; after every edit and read-only step all views (NodesWithTag for every node x 11 tags, Individuals, Families, NodeByPointer for every pointer ever seen, per individual Names/Sex/Births/Baptisms/Deaths/Burials/AllEvents/UniqueIdentifiers/Families/Spouses/Parents/Children/String, per family Husband/Wife/their individuals/Children/the individuals and parents of the children/String) are compared with a fresh decode of Document.String(); read-only steps must leave the text unchanged; non-trivial = an edit that follows a read of the views")
 	s.Rapid(t, harness.Share(harness.Pick(12000, 300000)), 130, func(rt *rapid.T) {
-		h := history{Start: gen.Graph(gen.GraphOpts{MaxPeople: 5, MaxFamilies: 3, UIDs: true, Sources: true, Big: 120, BigLo: 20, BigHi: 40}).Draw(rt, "start")}
+		h := history{Start: gen.Graph(gen.GraphOpts{MaxPeople: 5, MaxFamilies: 3, UIDs: true, Sources: true, Big: 120, BigLo: 30, BigHi: 100}).Draw(rt, "start")}
 		if len(h.Start.People) > 0 && rapid.IntRange(0, 2).Draw(rt, "duplicateName") == 0 {
 			// somebody has the same NAME twice (and lines after it): what the duplicate-name filter looks for
 			p := h.Start.People[rapid.IntRange(0, len(h.Start.People)-1).Draw(rt, "dupOf")]
@@ -746,6 +756,15 @@ func TestCheckHistories(t *testing.T) {
 		n := rapid.IntRange(1, 25).Draw(rt, "nops")
 		for i := 0; i < n; i++ {
 			h.Ops = append(h.Ops, genOp(rt))
+		}
+		// (a sixth of the histories add a record and take it away again: an individual under a pointer
+		// that is already in use, some steps later the record that was added last is deleted)
+		if rapid.IntRange(0, 5).Draw(rt, "addAndUndo") == 3 {
+			at := rapid.IntRange(0, len(h.Ops)).Draw(rt, "addAt")
+			add := op{Kind: "AddIndividual", A: rapid.IntRange(0, 40).Draw(rt, "addA"), B: 2 + 3*rapid.IntRange(0, 30).Draw(rt, "addB")}
+			h.Ops = append(h.Ops[:at], append([]op{add}, h.Ops[at:]...)...)
+			undo := rapid.IntRange(at+1, len(h.Ops)).Draw(rt, "undoAt")
+			h.Ops = append(h.Ops[:undo], append([]op{{Kind: "DocDeleteNode", A: 1, B: 1}}, h.Ops[undo:]...)...)
 		}
 		h.Background = rapid.IntRange(0, 4).Draw(rt, "background") == 2
 		h.Parallel = rapid.IntRange(0, 3).Draw(rt, "parallel") == 2
